@@ -527,6 +527,9 @@ def _oracle_one(case, impl):
     if "__crash__" in impl:
         return [dict(clause="runs", entry=entry, msg=f"crash {impl['__crash__']}: {impl.get('msg')}")]
     if "error" in impl:
+        Xd = np.array(fl(Fm(case["X"])))
+        if case["normalize"] and not np.any(Xd - Xd.mean(axis=0)):
+            return []  # zero-variance data cannot be normalised (weight 0, 0/0): degenerate input, nothing to check
         return [dict(clause="runs", entry="UFPCA.fit", msg=f"fit failed with {impl['error']}")]
     vs = []
 
